@@ -34,7 +34,7 @@ for s in sorted(os.listdir(os.path.join(V, "seeded"))):
     out = r.stdout + r.stderr
     viol = [l for l in out.splitlines() if l.startswith("VIOLATION")]
     nowit = [l for l in viol if l.endswith("no-failing-input-found")]
-    res[s] = {"property": prop, "applies": True, "tier": tier, "exit": r.returncode, "violations": len(viol),
+    res[s] = {**res.get(s, {}), "property": prop, "applies": True, "tier": tier, "exit": r.returncode, "violations": len(viol),
               "with_witness": len(viol) - len(nowit), "caught": r.returncode == 1 and len(viol) > 0,
               "seconds": round(time.time() - t0, 1), "last": out.strip().splitlines()[-1][:200] if out.strip() else ""}
     print(s, prop, "caught" if res[s]["caught"] else "MISSED", res[s]["with_witness"], "witness /", len(viol), "%.0fs" % (time.time() - t0), flush=True)
